@@ -83,6 +83,7 @@ Lemma fq_deferred : FQ deferred_lost_segment_handling.
 Proof.
   unfold deferred_lost_segment_handling.
   apply minv_bind; [minv | intros active]. destruct (negb active); [minv|].
+  apply minv_bind; [minv | intros disp]. destruct (disp =? DISP_CANCELED); [minv|].
   apply minv_bind; [minv | intros r]. apply minv_bind; [minv | intros eof]. destruct eof as [eos|]; [|minv].
   apply minv_bind; [minv | intros tr]. apply minv_bind; [minv | intros mdm].
   destruct ((zlen tr =? 0) && negb mdm); [minv|].
